@@ -42,6 +42,49 @@ CLAIMED = {
                 "UUID/str on canonical forms, Enum lookup; the step from schematic models to all documents is an "
                 "induction over the property tree plus the frame argument (paper, DESIGN 2.4).",
     },
+    "C03": {
+        "engines": ["F", "B"], "level": "proof",
+        "technique": "contract-based deductive verification of generated code: _get_kwargs and the four entry points "
+                     "rendered by the real templates for schematic operations, symbolically executed (ast->z3) against "
+                     "the request contract derived from the document",
+        "text": "For every schematic operation (each parameter location x kind, required and optional; same wire name in "
+                "three locations; path parameters out of placeholder order; path-item vs operation parameters; each body "
+                "type incl. several media types) the generated _get_kwargs is proved, for all argument values, to return "
+                "exactly the documented request; sync_detailed/asyncio_detailed are proved to send exactly one such "
+                "request through the right httpx client.",
+        "note": "Trusted: the symbolic semantics of the Python subset (pyvc.symexec), assumed library contracts listed in the evidence, the native run of the generator that renders the schematic package; the step from schematic documents to all documents is the induction/frame argument of DESIGN 2.4 (paper). httpx's own serialisation is assumed. Parser-side obligations (add_parameters, sort_parameters, "
+                "body_from_data) are listed separately in the evidence when built."
+    },
+    "C04": {
+        "engines": ["F", "B"], "level": "proof",
+        "technique": "contract-based deductive verification of generated code: _parse_response/_build_response rendered "
+                     "by the real templates, symbolically executed against the per-status decoding contract",
+        "text": "For a schematic operation documenting JSON model/list/scalar/union, +json, text, octet-stream, empty and "
+                "$ref'd responses the generated _parse_response and _build_response are proved, for every status code, "
+                "body and raise_on_unexpected_status setting, to decode a documented status per its media type and to "
+                "return None / raise UnexpectedStatus for an undocumented one. One known finding (status codes outside "
+                "http.HTTPStatus).",
+        "note": "Trusted: the symbolic semantics of the Python subset (pyvc.symexec), assumed library contracts listed in the evidence, the native run of the generator that renders the schematic package; the step from schematic documents to all documents is the induction/frame argument of DESIGN 2.4 (paper). httpx.Response.json()/text/content are symbolic inputs."
+    },
+    "C10": {
+        "engines": ["F", "B"], "level": "proof",
+        "technique": "contract-based deductive verification of generated code: from_dict on absent/null/present inputs, "
+                     "constructor signatures and _get_kwargs for unset arguments, per schematic kind",
+        "text": "For every schematic model the decoder is proved to map an absent optional key to UNSET, an absent "
+                "required key to KeyError, null to None exactly for nullable schemas and a present value to a non-UNSET "
+                "value; constructor defaults are read from the generated classes; unset optional parameters are proved "
+                "not to be sent (shared with C03).",
+        "note": "Trusted: the symbolic semantics of the Python subset (pyvc.symexec), assumed library contracts listed in the evidence, the native run of the generator that renders the schematic package; the step from schematic documents to all documents is the induction/frame argument of DESIGN 2.4 (paper). Type-string builders (parser side) are not yet under contract."
+    },
+    "C14": {
+        "engines": ["F", "B"], "level": "proof",
+        "technique": "contract-based deductive verification of generated code: enum / literal-enum / const decoders and "
+                     "encoders rendered by the real templates under both enum styles",
+        "text": "For schematic string/int/inline/nullable enums and consts, under Enum classes and literal_enums, the "
+                "round trip of every listed value and the rejection of every unlisted string are proved for the "
+                "generated from_dict/to_dict. One known finding (nullable enums pass unlisted values through).",
+        "note": "Trusted: the symbolic semantics of the Python subset (pyvc.symexec), assumed library contracts listed in the evidence, the native run of the generator that renders the schematic package; the step from schematic documents to all documents is the induction/frame argument of DESIGN 2.4 (paper). Member naming and duplicate detection in values_from_list are parser-side obligations."
+    },
 }
 
 _NOT_BUILT = "not built yet in this round (planned per DESIGN.md section 7); no claim is made"
